@@ -55,7 +55,7 @@ def _keys(x):
 def run_shard(tier, seed, idx, n, res, tmp):
     from stone.backends.python_rsrc import stone_serializers as ss, stone_validators as bv
     b = budget(tier)
-    for ci in range(idx, b['specs'], n):
+    for ci in common.case_range(idx, b['specs'], n, res):
         try:
             case = rtwork.SpecCase(PROPERTY, seed, ci, tmp, rtwork.rt_profile())
             positions = rtwork.typed_positions(case.m, case.pkg)
